@@ -369,14 +369,12 @@ theorem finalCache_append (key : C → A → K) (base : C → A → Option V) :
     have : i + 1 + rest.length = i + (rest.length + 1) := by omega
     rw [this]
 
-/-- **Identical object for repeated identical requests** (any key function): if (cls, args) was
-    requested after `h1` and the base gave a value, then the same request after any further requests
-    `h2` returns the identical object (same value, same identity `j`), and this is a cache hit: the
-    object is at least as old as the first request. -/
-theorem memo_same_object (key : C → A → K) (base : C → A → Option V) (h1 h2 : List (C × A)) (c : C) (a : A)
-    (v : V) (hb : base c a = some v) :
+/-- Two requests with the same key share one cache entry: after (cls, args) was answered with a value,
+    any later request with an equal key returns that identical object, and it is a cache hit. -/
+theorem memo_same_key_object (key : C → A → K) (base : C → A → Option V) (h1 h2 : List (C × A)) (c c' : C)
+    (a a' : A) (hkey : key c' a' = key c a) (v : V) (hb : base c a = some v) :
     ∃ r, respond key base h1 c a = some r ∧
-         respond key base (h1 ++ (c, a) :: h2) c a = some r ∧ r.2 ≤ h1.length := by
+         respond key base (h1 ++ (c, a) :: h2) c' a' = some r ∧ r.2 ≤ h1.length := by
   -- the response to the first request, and the cache right after it
   have hfirst : ∃ r, respond key base h1 c a = some r ∧
       cacheGet (memoStep key base (cacheAfter key base h1) h1.length c a).2 (key c a) = some r ∧
@@ -395,7 +393,8 @@ theorem memo_same_object (key : C → A → K) (base : C → A → Option V) (h1
       refine ⟨(v, h1.length), by simp [hb], by simp [hb, cacheGet], Nat.le_refl _⟩
   obtain ⟨r, hr1, hcache, hle⟩ := hfirst
   refine ⟨r, hr1, ?_, hle⟩
-  have hca : cacheGet (cacheAfter key base (h1 ++ (c, a) :: h2)) (key c a) = some r := by
+  have hca : cacheGet (cacheAfter key base (h1 ++ (c, a) :: h2)) (key c' a') = some r := by
+    rw [hkey]
     unfold cacheAfter
     rw [finalCache_append]
     simp only [finalCache, Nat.zero_add]
@@ -403,7 +402,17 @@ theorem memo_same_object (key : C → A → K) (base : C → A → Option V) (h1
   unfold respond memoStep
   simp [hca]
 
-/-- The real key (`make_hash_key`: arguments only, class dropped) is NOT injective as soon as two
+/-- **Identical object for repeated identical requests** (any key function): if (cls, args) was
+    requested after `h1` and the base gave a value, then the same request after any further requests
+    `h2` returns the identical object (same value, same identity `j`), and this is a cache hit: the
+    object is at least as old as the first request. -/
+theorem memo_same_object (key : C → A → K) (base : C → A → Option V) (h1 h2 : List (C × A)) (c : C) (a : A)
+    (v : V) (hb : base c a = some v) :
+    ∃ r, respond key base h1 c a = some r ∧
+         respond key base (h1 ++ (c, a) :: h2) c a = some r ∧ r.2 ≤ h1.length :=
+  memo_same_key_object key base h1 h2 c c a a rfl v hb
+
+/-- The pre-fix key (`make_hash_key` alone: arguments only, class dropped) is NOT injective as soon as two
     classes accept equal arguments, and then Memoize returns the other class's result: after
     `A(x)`, the request `B(x)` is answered with `A`'s object. -/
 theorem real_key_collision_witness :
@@ -436,6 +445,46 @@ theorem memo_full_key_refines_base [DecidableEq C] [DecidableEq A] (base : C →
     ∀ v j, respond fullKey base hist c a = some (v, j) → (hist ++ [(c, a)])[j]? = some (c, a) :=
   ⟨memo_refines_base_injective fullKey base full_key_injective hist c a,
    fun v j h => memo_src_same_args fullKey base full_key_injective hist c a v j h⟩
+
+/-! ### The key on HEAD: origin class + arguments -/
+
+/-- `headKey` identifies a request up to the type parameters of its class. -/
+theorem head_key_injective {P : Type} (c c' : C × P) (a a' : A) (h : headKey c a = headKey c' a') :
+    c.1 = c'.1 ∧ a = a' := by
+  simpa [headKey] using h
+
+/-- Without type parameters the HEAD key is injective outright. -/
+theorem head_key_injective_unparam : KeyInjective (headKey (C := C) (P := Unit) (A := A)) := by
+  intro c a c' a' h
+  obtain ⟨h1, h2⟩ := head_key_injective c c' a a' h
+  exact ⟨Prod.ext h1 rfl, h2⟩
+
+/-- The base interpretation dispatches on the origin class (registries are keyed by `get_origin`), so
+    requests that differ in the type parameters only have the same base result: the HEAD key respects
+    every such base. -/
+theorem head_key_respects {P : Type} (base : C × P → A → Option V)
+    (hbase : ∀ c p p' a, base (c, p) a = base (c, p') a) : KeyRespects headKey base := by
+  intro c a c' a' h
+  obtain ⟨h1, h2⟩ := head_key_injective c c' a a' h
+  obtain ⟨c0, p⟩ := c
+  obtain ⟨c0', p'⟩ := c'
+  simp only at h1
+  subst h1 h2
+  exact hbase c0 p p' a
+
+/-- **Memoize on HEAD refines its base interpretation**, for every history of direct constructions and
+    reinterpretations, and a reinterpretation of a term hits the entry of its direct construction. -/
+theorem memo_head_key_refines_base {P : Type} [DecidableEq C] [DecidableEq A] (base : C × P → A → Option V)
+    (hbase : ∀ c p p' a, base (c, p) a = base (c, p') a) (hist : List ((C × P) × A)) (c : C × P) (a : A) :
+    (respond headKey base hist c a).map Prod.fst = base c a :=
+  memo_refines_base headKey base (head_key_respects base hbase) hist c a
+
+theorem memo_head_key_shares_entry {P : Type} [DecidableEq C] [DecidableEq A] (base : C × P → A → Option V)
+    (h1 h2 : List ((C × P) × A)) (c : C) (p p' : P) (a : A) (v : V) (hb : base (c, p) a = some v) :
+    ∃ r, respond headKey base h1 (c, p) a = some r ∧
+         respond headKey base (h1 ++ ((c, p), a) :: h2) (c, p') a = some r :=
+  let ⟨r, h1', h2', _⟩ := memo_same_key_object headKey base h1 h2 (c, p) (c, p') a a rfl v hb
+  ⟨r, h1', h2'⟩
 
 /-- The real key is injective within one class (repeated identical requests are recognised). -/
 theorem real_key_injective_one_class : KeyInjective (realKey (C := Unit) (A := A)) := by
